@@ -3,6 +3,7 @@
   `step : Server → Op → Server × Resp`.
 -/
 import Emu.Bt.Admin
+import Emu.Bt.Chunks
 import Emu.Basic.Assoc
 
 namespace Emu.Bt
@@ -54,7 +55,8 @@ inductive Resp
   | statuses (sts : List Bool)
   | matched (b : Bool)
   | row (r : Row)
-  | keyList (ks : List Bytes)
+  /-- the stored keys in order, each with its `rowsize` -/
+  | keyList (ks : List (Bytes × Nat))
 deriving Inhabited
 
 def tablesInfix : Bytes := Bytes.ofString "/tables/"
@@ -142,7 +144,7 @@ def step (s : Server) : Op → Server × Resp
       match readRows t s.rnd keys ranges limit f with
       | .error c => (s, .err c)
       | .ok rs => if failAt > 0 && sendCount 0 rs ≥ failAt then (s, .err .other) else (s, .rows rs)
-  | .keys name => s.withTable name fun t => (s, .keyList (t.rows.map (·.key)))
+  | .keys name => s.withTable name fun t => (s, .keyList (t.rows.map fun r => (r.key, r.size)))
   | .gc name => s.withTable name fun t => (s.setTable name (gcPass s.now t), .ok)
   | .gcw name writes =>
     s.withTable name fun t =>
